@@ -4,6 +4,7 @@ package main
 
 import (
 	"fmt"
+	"go/token"
 	"go/types"
 	"strings"
 
@@ -50,6 +51,8 @@ func callRT(fr *frame, fn *ssa.Function, args []value) (value, bool) {
 		return true, true
 	case "PrintStack":
 		return nil, true
+	case "MustReturn":
+		return mustReturn(fr, strArg(args[0]), args[1]), true
 	case "Thorough":
 		return fr.i.thorough, true
 	case "U64":
@@ -154,4 +157,21 @@ func callRT(fr *frame, fn *ssa.Function, args []value) (value, bool) {
 		panic(internalError{"verifrt." + fn.Name() + " must not be reached under gsx"})
 	}
 	return nil, false
+}
+
+// mustReturn runs f with a tightened budget; exceeding it (in any thread) is the violation
+// "does not return" (converted where the path is finished, see startThread).
+func mustReturn(fr *frame, label string, f value) (returned bool) {
+	m := fr.m
+	saveDecs, saveSteps, saveLabel := m.maxDecs, m.maxSteps, m.wedgeLabel
+	if lim := len(m.decs) + 400; lim < m.maxDecs {
+		m.maxDecs = lim
+	}
+	if lim := m.steps + 400_000; lim < m.maxSteps {
+		m.maxSteps = lim
+	}
+	m.wedgeLabel = label
+	call(fr.i, fr, token.NoPos, f, nil)
+	m.maxDecs, m.maxSteps, m.wedgeLabel = saveDecs, saveSteps, saveLabel
+	return true
 }
